@@ -13,6 +13,28 @@ HARNESS = os.path.join(VERIF, "harness")
 CACHE = os.path.join(VERIF, "cache")
 REPO = "/repo"
 REPLAY_DIR = os.path.join(VERIF, "replays")
+
+# Validation tooling only (bin/seeded.py --worktree): KTVERIF_REPO=<scratch worktree> runs the same checks
+# against a copy of the repository elsewhere, with its own harness copy, caches, evidence and replays, so that
+# mutants can be tried without touching /repo.  The registered MANIFEST commands never set it.
+if os.environ.get("KTVERIF_REPO"):
+    import hashlib
+    REPO = os.path.abspath(os.environ["KTVERIF_REPO"])
+    _tag = hashlib.sha1(REPO.encode()).hexdigest()[:10]
+    CACHE = os.path.join(VERIF, "cache", "alt-" + _tag)
+    REPLAY_DIR = os.path.join(CACHE, "replays")
+    _alt = os.path.join(CACHE, "harness")
+    os.makedirs(CACHE, exist_ok=True)
+    # regenerate the harness copy every time (cheap; keeps it in sync with /verif/harness)
+    subprocess.call(["rm", "-rf", _alt])
+    shutil.copytree(HARNESS, _alt, ignore=shutil.ignore_patterns("target"))
+    for _root, _dirs, _files in os.walk(_alt):
+        for _f in _files:
+            if _f in ("Cargo.toml", "config.toml"):
+                _p = os.path.join(_root, _f)
+                _t = open(_p).read().replace('"/repo/', '"%s/' % REPO).replace("/verif/cache/target-harness", os.path.join(CACHE, "target-harness"))
+                open(_p, "w").write(_t)
+    HARNESS = _alt
 TARGET = "x86_64-unknown-linux-gnu"
 
 MIRIFLAGS = "-Zmiri-disable-isolation -Zmiri-tree-borrows -Zmiri-permissive-provenance -Zmiri-ignore-leaks"
@@ -122,13 +144,13 @@ def pymodule():
 SIGNAMES = {signal.SIGABRT: "SIGABRT", signal.SIGSEGV: "SIGSEGV", signal.SIGBUS: "SIGBUS", signal.SIGILL: "SIGILL",
             signal.SIGFPE: "SIGFPE", signal.SIGKILL: "SIGKILL", signal.SIGTERM: "SIGTERM"}
 
-REPO_FRAME = re.compile(r"(/repo/[A-Za-z_]+/src/[A-Za-z_/]+\.rs):(\d+)")
+REPO_FRAME = re.compile(r"(%s/[A-Za-z_]+/src/[A-Za-z_/]+\.rs):(\d+)" % re.escape(REPO))
 
 
 def _first_repo_frame(text):
     m = REPO_FRAME.search(text)
     if m:
-        return m.group(1).replace("/repo/", "")
+        return m.group(1).replace(REPO + "/", "")
     return "unknown"
 
 
@@ -308,7 +330,7 @@ def run_T(prop, st, tier, seed, work):
         if "data race" not in kind:
             noise += 1
             continue
-        if len(tops) >= 2 and all(t and "/repo/" in t for t in tops[:2]):
+        if len(tops) >= 2 and all(t and (REPO + "/") in t for t in tops[:2]):
             in_repo.append((kind, tops, body))
         else:
             noise += 1
@@ -401,7 +423,7 @@ def run_M(prop, st, tier, seed, work):
             res["violations"].append({"sig": sig, "msg": "Miri: " + (ub.group(0) if ub else race.group(0)), "replay": dst})
         elif re.search(r"test result: FAILED|panicked at", text):
             mm = re.search(r"panicked at ([^\n]*)\n([^\n]*)", text)
-            sig = "miri:test-failed:" + (_first_repo_frame(text) if "/repo/" in text else "oracle")
+            sig = "miri:test-failed:" + (_first_repo_frame(text) if (REPO + "/") in text else "oracle")
             res["violations"].append({"sig": sig, "msg": "Miri shard assertion failed: " + (mm.group(0)[:300] if mm else ""), "replay": dst})
         else:
             return {"status": "error", "error": "miri run failed without a recognisable report: " + text[-1500:]}
